@@ -364,8 +364,18 @@ def rule_send_sync_witness(ctx):
     witness.rule(ctx, ("C09",), "item data or the notify callback could be shared with the worker pool without being Send + Sync")
 
 
+def rule_unchecked_feed(ctx):
+    """Readers that skip the entry's flag (get_unchecked: the rescoring loop, the sort tie-break, the snapshot accessors)
+    have no acquire edge of their own: the only happens-before edge from the item's publication is the one taken when
+    the index entered `matches`.  So every Match index must have been produced behind a checked (flag-acquiring) read,
+    and unpublished indices must be parked in `in_flight` instead (shared with C06)."""
+    from props.c06 import rule_unchecked_feed as r
+    r(ctx)
+
+
 def rules(ctx):
     ctx.run_rule("C09.order-table", rule_order_table)
+    ctx.run_rule("C09.unchecked-feed", rule_unchecked_feed)
     ctx.run_rule("C09.matchers-confined", rule_matchers_confined)
     ctx.run_rule("C09.guard-moved", rule_guard_moved)
     ctx.run_rule("C09.unsafe-impls", rule_unsafe_impls)
